@@ -114,6 +114,22 @@ def _next_offset(code, lasti):
     return offs[j + 1] if j + 1 < len(offs) else -1
 
 
+_EXC = {}
+
+
+def _handler_at(code, off):
+    """Target of the innermost exception-table entry that covers instruction offset `off`
+    (None when an exception raised there leaves the frame)."""
+    import dis
+    tab = _EXC.get(code)
+    if tab is None:
+        tab = _EXC[code] = list(dis._parse_exception_table(code))
+    for e in tab:                      # entries are ordered so that the first match is the innermost
+        if e.start <= off < e.end:
+            return e.target
+    return None
+
+
 def _depth(f):
     n = 0
     while f is not None:
@@ -234,7 +250,15 @@ class Monitor(object):
             if f.when == 'return':
                 # arm: raise when this frame executes its next instruction after the call
                 self.fault = None
-                self.pending = dict(frame=caller_frame, code=code, next=_next_offset(code, caller_frame.f_lasti),
+                nxt = _next_offset(code, caller_frame.f_lasti)
+                if nxt < 0 or _handler_at(code, nxt) != _handler_at(code, caller_frame.f_lasti):
+                    # `return f()` inside try/finally and the like: the instruction after the call is
+                    # already outside the protected range, an exception raised there would skip the
+                    # handlers a failure of the callee itself would meet.  Not a faithful fault: skip.
+                    self.not_delivered += 1
+                    self.fault = self.queue.pop(0) if self.queue else None
+                    return
+                self.pending = dict(frame=caller_frame, code=code, next=nxt,
                                     fault=f, ev=ev)
                 mon.set_local_events(TOOL, code, EV.INSTRUCTION)
                 return
@@ -575,6 +599,18 @@ def _limit_from(m, muts, idx, first):
         if ronly:
             cand = min(cand, min(ronly))
     return cand
+
+
+def mechanism_calls(m):
+    """Calls that were in progress at ANY mutation of an environment variable: they are part of
+    the perturbing or of the restoring mechanism.  A fail-on-return fault is never placed on
+    them (rule 1e): "the helper exported the variables and then the failure surfaced between
+    its return and the `try:` that follows" is the acquire-then-try idiom, not a failing stage.
+    Entry faults on these calls remain admissible (they fail before doing anything)."""
+    s = set()
+    for mu in list(m.mutations) + list(m.other_mutations):
+        s.update(mu['enclosing'])
+    return frozenset(s)
 
 
 def admissible_limit(m):
